@@ -24,6 +24,14 @@ _COPYRIGHT_PREFIXES = {
 }
 
 
+def _earliest_and_widest(line_info: dict) -> tuple[str, int]:
+    """Sort key: first year (lines without a year last), then widest span."""
+    years = line_info["year"]
+    if not years:
+        return ("9999", 0)
+    return (min(years), int(min(years)) - int(max(years)))
+
+
 def merge_copyright_lines(copyright_lines: set[str]) -> set[str]:
     """Parse all copyright lines and merge identical statements making years
     into a range.
@@ -57,11 +65,20 @@ def merge_copyright_lines(copyright_lines: set[str]) -> set[str]:
             item for item in copyright_in if item["statement"] == statement
         ]
 
-        # Get the most common prefix.
+        # Get the most common prefix. Between equally common prefixes, the one
+        # of the line that goes back furthest and spans the most years wins:
+        # that is the line an earlier merge produced, so that merging the same
+        # lines again changes nothing.
+        counts = Counter([item["prefix"] for item in copyright_list])
         most_common = str(
-            Counter([item["prefix"] for item in copyright_list]).most_common(1)[
-                0
-            ][0]
+            min(
+                (
+                    item
+                    for item in copyright_list
+                    if counts[item["prefix"]] == max(counts.values())
+                ),
+                key=_earliest_and_widest,
+            )["prefix"]
         )
         prefix = "spdx"
         for key, value in _COPYRIGHT_PREFIXES.items():
